@@ -10,7 +10,7 @@ import itertools
 import re
 
 from ..astq import walk, kids, strip, canon, qt, dqt, where, if_parts
-from ..evalx import Interp, SymVal, Unsupported, Ref
+from ..evalx import Interp, SymVal, Unsupported, Ref, _Return
 from ..extract import AnalysisBroken
 
 FILL = ["EvenOdd", "NonZero", "Positive", "Negative"]
@@ -2712,6 +2712,108 @@ def nearest_crossing_table(db, chk, cfg, rule="T.nearest-crossing"):
 # PIP.on-edge: a point on an edge is reported as such wherever a cross product decides a toggle (C04, C18)
 # ---------------------------------------------------------------------------
 
+def _pip_guard_excludes_on_edge(site, par):
+    """Path conditions (if / else-if ancestors up to the enclosing loop) of a cross-product site, restricted to those that compare
+    x coordinates only.  Returns None when every ordering with the point's x inside the closed x-range of the edge reaches the site,
+    else (text of the conditions, description of an excluded ordering).  Conditions that mention anything but comparisons between
+    x coordinates are not judged here."""
+    conds = []
+    node = site
+    while True:
+        p = par.get(id(node))
+        if p is None or p.get("kind") in ("WhileStmt", "ForStmt", "DoStmt", "CXXForRangeStmt", "FunctionDecl", "CXXMethodDecl"):
+            break
+        if p.get("kind") == "IfStmt":
+            cond, then, els = if_parts(p)
+            if node is then or node is els:
+                conds.append((cond, node is then))
+        node = p
+
+    def is_x(e):
+        e = strip(e)
+        return e.get("kind") == "MemberExpr" and e.get("name") == "x"
+
+    leaves = []
+
+    def tree(e):
+        e = strip(e)
+        k = e.get("kind")
+        if k == "BinaryOperator" and e.get("opcode") in ("&&", "||"):
+            l, r = tree(kids(e)[0]), tree(kids(e)[1])
+            return None if l is None or r is None else (e["opcode"], l, r)
+        if k == "UnaryOperator" and e.get("opcode") == "!":
+            l = tree(kids(e)[0])
+            return None if l is None else ("!", l)
+        if k == "BinaryOperator" and e.get("opcode") in ("<", ">", "<=", ">=", "==", "!="):
+            l, r = kids(e)[0], kids(e)[1]
+            if is_x(l) and is_x(r):
+                for t in (canon(strip(l)), canon(strip(r))):
+                    if t not in leaves:
+                        leaves.append(t)
+                return (e["opcode"], canon(strip(l)), canon(strip(r)))
+            l2, r2 = tree(l), tree(r)          # (a < b) != (c < d)
+            if e.get("opcode") in ("==", "!=") and l2 is not None and r2 is not None:
+                return ("b" + e["opcode"], l2, r2)
+        return None
+
+    def has_x(e):
+        return any(y.get("kind") == "MemberExpr" and y.get("name") == "x" for y in walk(e))
+
+    trees = []
+    for cond, pol in conds:
+        if not has_x(cond):
+            continue
+        t = tree(cond)
+        if t is None:
+            return None                      # mixed condition: not judged
+        trees.append((t, pol, canon(cond)))
+    if not trees or len(leaves) != 3:
+        return None
+    # the point's x is the leaf present in every comparison
+    def cmp_leaves(t, acc):
+        if t[0] in ("&&", "||", "b==", "b!="):
+            cmp_leaves(t[1], acc), cmp_leaves(t[2], acc)
+        elif t[0] == "!":
+            cmp_leaves(t[1], acc)
+        else:
+            acc.append({t[1], t[2]})
+        return acc
+    allc = []
+    for t, _, _ in trees:
+        cmp_leaves(t, allc)
+    pts = [l for l in leaves if all(l in c0 for c0 in allc)]
+    if len(pts) != 1:
+        return None
+    P = pts[0]
+    E1, E2 = [l for l in leaves if l != P]
+    import operator as _op
+    OPS = {"<": _op.lt, ">": _op.gt, "<=": _op.le, ">=": _op.ge, "==": _op.eq, "!=": _op.ne}
+
+    def ev(t, env):
+        if t[0] == "&&":
+            return ev(t[1], env) and ev(t[2], env)
+        if t[0] == "||":
+            return ev(t[1], env) or ev(t[2], env)
+        if t[0] == "!":
+            return not ev(t[1], env)
+        if t[0] == "b==":
+            return ev(t[1], env) == ev(t[2], env)
+        if t[0] == "b!=":
+            return ev(t[1], env) != ev(t[2], env)
+        return OPS[t[0]](env[t[1]], env[t[2]])
+    for pv in range(3):
+        for a in range(3):
+            for b in range(3):
+                if not (min(a, b) <= pv <= max(a, b)):
+                    continue
+                env = {P: pv, E1: a, E2: b}
+                if not all(ev(t, env) == pol for t, pol, _ in trees):
+                    rel = lambda u, v: "<" if u < v else (">" if u > v else "==")
+                    return ("; ".join(("" if pol else "not ") + txt for _, pol, txt in trees)[:160],
+                            "%s %s %s and %s %s %s" % (P, rel(pv, a), E1, P, rel(pv, b), E2))
+    return None
+
+
 def pip_on_edge_sites(db, chk, cfg, rule="PIP.on-edge"):
     """In the point-in-polygon routines (every function returning PointInPolygonResult) the side of the point relative to an edge is
     taken from CrossProductSign.  Each such call: its value is kept in a local, and the local is tested for zero with the IsOn result
@@ -2759,10 +2861,125 @@ def pip_on_edge_sites(db, chk, cfg, rule="PIP.on-edge"):
                         zero = a.get("kind") == "DeclRefExpr" and a.get("referencedDecl", {}).get("id") == vid
                     if zero and any(y.get("kind") == "ReturnStmt" and kids(y) and canon(kids(y)[0]).endswith("IsOn") for y in walk(then)):
                         ok = True
+            # the shortcuts in front of the cross product ("the edge lies wholly to one side of the point") must let every point through
+            # whose x lies within the x-range of the edge, its ends included: the conditions on the way from the enclosing loop to this
+            # call are evaluated for every weak ordering of the three x values
+            if ok:
+                guard_bad = _pip_guard_excludes_on_edge(c, par)
+                if guard_bad:
+                    ok = False
+                    why = ("the conditions in front of it (%s) send a point with %s past it" % (guard_bad[0], guard_bad[1]))
             chk.instance(rule, {"function": f.qual, "sig": f.sig[:50], "call": where(c), "cfg": cfg}, ok=ok)
             if not ok:
                 chk.violation(rule, f.qual, "%s|%s" % (f.sig[:30], c.get("line")), "%s: the cross product at %s decides on which side of an edge the point lies, but %s: a point exactly "
                               "on that edge is classified inside or outside (by the edge's direction) instead of IsOn" % (f.qual, where(c), why), where(c), cfg=cfg)
     if n < 4:
         raise AnalysisBroken("PIP.on-edge: only %d cross-product sites in point-in-polygon routines (configuration %s)" % (n, cfg))
+    return n
+
+
+# ---------------------------------------------------------------------------
+# START.location: where RectClip64's scan believes the path to be before its first segment (C08)
+# ---------------------------------------------------------------------------
+
+def start_location_rule(db, chk, cfg, rule="START.location"):
+    """RectClip64::ExecuteInternal walks a closed path segment by segment, the first segment being the closing one (last vertex ->
+    first vertex), and only records a crossing when the location changes.  So the location it starts with must be the truth about
+    the last vertex: its region when it lies off the rectangle's boundary; when it lies *on* the boundary, `Inside` exactly when
+    the nearest earlier vertex off the boundary is inside (the path arrives at the boundary from the interior and its leaving the
+    rectangle is still to come), else the side it lies on.  The function's prologue - everything before the main loop - is
+    interpreted for every status (5 regions off the boundary, 4 sides on it) of the last three vertices of a path; GetLocation is
+    answered from the scenario, its definition being checked by T.location."""
+    f = db.one("RectClip64::ExecuteInternal")
+    main = None
+    pre = []
+    for x in kids(f.body):
+        if x.get("kind") == "WhileStmt" and any(y.get("kind") in ("CallExpr", "CXXMemberCallExpr") and db.callee(y)[0] == "GetNextLocation" for y in walk(kids(x)[-1])):
+            main = x
+            break
+        pre.append(x)
+    if main is None:
+        raise AnalysisBroken("%s: main loop of RectClip64::ExecuteInternal not found" % rule)
+    gnl = [y for y in walk(kids(main)[-1]) if y.get("kind") in ("CallExpr", "CXXMemberCallExpr") and db.callee(y)[0] == "GetNextLocation"][0]
+    locvar = canon(db.call_args(gnl)[1])
+    pathvar = f.params[0]["name"]
+    it0 = Interp(db, {}, [])
+    enum = {}
+    for y in walk(f.body):
+        if y.get("kind") == "DeclRefExpr" and y.get("referencedDecl", {}).get("kind") == "EnumConstantDecl":
+            enum[y["referencedDecl"]["name"]] = it0.ev(y)
+    if not all(k in enum for k in ("Inside",)):
+        raise AnalysisBroken("%s: Location::Inside not used in RectClip64::ExecuteInternal" % rule)
+    g = db.one("GetLocation")
+    for y in walk(g.body):
+        if y.get("kind") == "DeclRefExpr" and y.get("referencedDecl", {}).get("kind") == "EnumConstantDecl":
+            enum[y["referencedDecl"]["name"]] = it0.ev(y)
+    sides = [enum[k] for k in ("Left", "Top", "Right", "Bottom") if k in enum]
+    if len(sides) != 4:
+        raise AnalysisBroken("%s: the four side locations were not found in GetLocation" % rule)
+    inside = enum["Inside"]
+    name_of = {v: k for k, v in enum.items()}
+    statuses = [(True, l) for l in sides + [inside]] + [(False, l) for l in sides]
+    N = 3
+    n = bad = 0
+    first_bad = None
+    for s2 in statuses:
+        for s1 in statuses:
+            for s0 in statuses:
+                scen = {2: s2, 1: s1, 0: s0}
+                it = Interp(db, {}, [])
+
+                def hook(name, argv, nd, it=it, scen=scen):
+                    if name == "GetLocation":
+                        args = db.call_args(nd)
+                        pe = strip(args[1])
+                        idx = None
+                        for y in walk(pe):
+                            if y.get("kind") in ("CXXOperatorCallExpr", "ArraySubscriptExpr"):
+                                idx = it.ev(kids(y)[-1])
+                                break
+                        if idx is None or int(idx) not in scen:
+                            raise Unsupported("GetLocation on something else than a vertex of the path")
+                        off, l = scen[int(idx)]
+                        it.env[canon(args[2])] = l
+                        return off
+                    if name == "size" and nd.get("kind") == "CXXMemberCallExpr" and canon(db.member_base(nd)) == pathvar:
+                        return N
+                    if name == "empty" and nd.get("kind") == "CXXMemberCallExpr" and canon(db.member_base(nd)) == pathvar:
+                        return False
+                    return NotImplemented
+                it.call_hook = hook
+                it.concrete_loops = True
+                returned = False
+                try:
+                    for s in pre:
+                        it.exec(s)
+                except _Return:
+                    returned = True
+                except Unsupported as e:
+                    # the only part that may be out of reach is the copy loop of the all-on-boundary case
+                    if all(not st[0] for st in scen.values()):
+                        returned = True
+                    else:
+                        raise AnalysisBroken("%s: cannot interpret the prologue of RectClip64::ExecuteInternal: %s" % (rule, e))
+                n += 1
+                off, l = s2
+                if off:
+                    want = l
+                else:
+                    earlier = [st for st in (s1, s0) if st[0]]
+                    want = None if not earlier else (inside if earlier[0][1] == inside else l)
+                got = None if returned else it.env.get(locvar)
+                if got != want:
+                    bad += 1
+                    if first_bad is None:
+                        first_bad = (scen, got, want)
+    chk.instance(rule, {"function": f.qual, "scenarios": n, "wrong": bad, "cfg": cfg}, ok=not bad)
+    if bad:
+        scen, got, want = first_bad
+        d = lambda st: ("off the boundary in %s" if st[0] else "on the boundary (%s)") % name_of.get(st[1], st[1])
+        chk.violation(rule, f.qual, "prologue", "RectClip64::ExecuteInternal starts its scan with the wrong location in %d of %d scenarios, e.g. last vertex %s, the one "
+                      "before %s, the one before that %s: `%s` is %s, the path is %s - the crossing of the closing segment is then not recorded (or a spurious one is)"
+                      % (bad, n, d(scen[2]), d(scen[1]), d(scen[0]), locvar, name_of.get(got, "returned early" if got is None else got),
+                         name_of.get(want, "wholly on / inside the boundary (early return)" if want is None else want)), f.where, cfg=cfg)
     return n
